@@ -44,4 +44,12 @@ live only in the VTOC buffer -/
 theorem exD_free : freeOf (statFree exD) = 426 ∧ freeOf (statFree ⟨exD.raw, exD.c, none⟩) = 429 := by decide +kernel
 
 
+set_option maxRecDepth 1000000 in
+/-- `init33(254)` on the blank DO image succeeds -/
+theorem init16_ok : (init (blank 16) 254 16).1 ≠ .error .panic := by
+  have h : (match (init (blank 16) 254 16).1 with | .ok _ => true | .error _ => false) = true := by decide +kernel
+  intro e
+  rw [e] at h
+  cases h
+
 end A2Verif.Reload.Dos
